@@ -30,7 +30,7 @@ RESIDUE = ["annotate with a view that does not contain the needed bins are outsi
 FIELD_IDS = {"chrom": 0, "start": 1, "end": 2, "extra": 3, "bin1_id": 10, "bin2_id": 11, "count": 12, "length": 20, "namecode": 21}
 
 
-def build(ctx, tag, nper, rng, int_chrom=False):
+def build(ctx, tag, nper, rng, int_chrom=False, scale=1):
     import cooler
     import h5py
     names = ["chrA", "b", "chr10"][: len(nper)]
@@ -38,7 +38,7 @@ def build(ctx, tag, nper, rng, int_chrom=False):
     for cname, k in zip(names, nper):
         pos = 0
         for _ in range(k):
-            w = rng.choice([5, 10, 10, 13])
+            w = rng.choice([5, 10, 10, 13]) * scale      # scale 4e7: coordinates up to ~2.08e9, just below the int32 limit of the stored columns
             rows.append((cname, pos, pos + w))
             pos += w
     bins = pd.DataFrame(rows, columns=["chrom", "start", "end"])
@@ -435,11 +435,12 @@ def run_history(ctx):
 
 def run(ctx):
     rng = ctx.rng
-    specs = [("c6", [4, 2], False), ("c8", [3, 1, 4], False), ("c1", [1], False), ("c6int", [2, 4], True)]
+    specs = [("c6", [4, 2], False, 1), ("c8", [3, 1, 4], False, 1), ("c1", [1], False, 1), ("c6int", [2, 4], True, 1),
+             ("c5big", [4, 1], False, 4 * 10 ** 7)]
     if ctx.tier == "thorough":
-        specs += [("c12", [5, 4, 3], False), ("c5int", [1, 3, 1], True)]
-    for tag, nper, int_chrom in specs:
-        path, raw = build(ctx, tag, nper, rng, int_chrom)
+        specs += [("c12", [5, 4, 3], False, 1), ("c5int", [1, 3, 1], True, 1), ("c7bigint", [3, 4], True, 4 * 10 ** 7)]
+    for tag, nper, int_chrom, scale in specs:
+        path, raw = build(ctx, tag, nper, rng, int_chrom, scale)
         run_selectors(ctx, path, raw, tag)
         run_annotate(ctx, path, raw, tag)
         # integer chromosome ids must come back as names
